@@ -215,3 +215,122 @@ def tmap_from_actions(ch, sc, coder=None):
     for tr in sc.transitions:
         tmap[id(tr)] = by_action[(tr.source, (tr.action or '').strip())]
     return tmap
+
+
+def build_edited(ch, rnd, coder=None):
+    """The same statechart, reached through a detour of structural edits (move away and back, rename and back, add and
+    remove a junk state) with executions and queries in between - whatever the Statechart caches must not survive an
+    edit.  Returns (statechart, tmap, list of detours) or None if the detour did not lead back to the described chart."""
+    from sismic.interpreter import Interpreter
+    from sismic.model import BasicState as _Basic
+    from .probes import Probes
+    sc, tmap = build_api(ch, coder)
+    st = ch['states']
+
+    def warm():
+        for n in sc.states:
+            sc.depth_for(n)
+            sc.descendants_for(n)
+            sc.ancestors_for(n)
+        try:
+            it = Interpreter(sc, initial_context=Probes().context(v=0))
+            for e in ch['events'][:3]:
+                it.queue(e, u=-1)
+            for _ in range(5):
+                it.execute_once()
+        except Exception:       # noqa – the intermediate chart may be unsound; only the caches matter here
+            pass
+    done = []
+    for op in rnd.sample(['move', 'rename', 'junk', 'move', 'readd'], k=rnd.randint(1, 3)):
+        names = [n for n in ch['order'] if n != ch['root']]
+        if not names:
+            break
+        composite = [n for n in names if st[n]['children']]
+        if op == 'readd':
+            # a leaf state is removed, added somewhere else, removed again and added back where it belongs
+            leaves = [n for n in names if st[n]['kind'] in ('basic', 'final')]
+            if not leaves:
+                continue
+            x = rnd.choice(leaves)
+            p = st[x]['parent']
+            cands = [n for n in ch['order'] if n != p and n != x and st[n]['kind'] in ('compound', 'orthogonal')]
+            if st[x]['kind'] == 'final':
+                cands = [n for n in cands if st[n]['kind'] == 'compound']
+            if not cands:
+                continue
+            obj = sc.state_for(x)
+            ts = [t for t in sc.transitions if t.source == x or t.target == x]
+            if rnd.random() < 0.4:
+                warm()
+            sc.remove_state(x)
+            sc.add_state(obj, rnd.choice(cands))
+            warm()
+            sc.remove_state(x)
+            sc.add_state(obj, p)
+            for t in ts:
+                sc.add_transition(t)
+            for n, s_ in st.items():
+                if s_['initial'] == x:
+                    sc.state_for(n).initial = x
+                if s_['memory'] == x:
+                    sc.state_for(n).memory = x
+            done.append(('readd', x))
+            continue
+        if op == 'move':
+            m = rnd.choice(composite if composite and rnd.random() < 0.8 else names)
+            sub = set([m])
+            todo = [m]
+            while todo:
+                x = todo.pop()
+                for c in st[x]['children']:
+                    sub.add(c)
+                    todo.append(c)
+            p = st[m]['parent']
+            cands = [n for n in ch['order'] if n not in sub and n != p and st[n]['kind'] in ('compound', 'orthogonal')]
+            if st[m]['kind'] in ('shallow', 'deep'):
+                cands = [n for n in cands if st[n]['kind'] == 'compound']
+            if not cands:
+                continue
+            t = rnd.choice(cands)
+            if rnd.random() < 0.4:
+                warm()      # (a warm cache *before* the detour would hold the finally correct answers)
+            sc.move_state(m, t)
+            warm()
+            sc.move_state(m, p)
+            for n, s_ in st.items():            # move_state resets the references to the moved state: put them back
+                if s_['initial'] == m:
+                    sc.state_for(n).initial = m
+                if s_['memory'] == m:
+                    sc.state_for(n).memory = m
+            if st[m]['kind'] in ('shallow', 'deep'):
+                sc.state_for(m).memory = st[m]['memory']
+            done.append(('move', m, t, p))
+        elif op == 'rename':
+            comp_all = [n for n in ch['order'] if st[n]['children']]
+            x = rnd.choice(comp_all if comp_all and rnd.random() < 0.8 else ch['order'])
+            if rnd.random() < 0.4:
+                warm()
+            sc.rename_state(x, 'TMP_' + x)
+            warm()
+            sc.rename_state('TMP_' + x, x)
+            done.append(('rename', x))
+        else:
+            comp = [n for n in ch['order'] if st[n]['kind'] == 'compound']
+            if not comp:
+                continue
+            par = rnd.choice(comp)
+            sc.add_state(_Basic('JUNK'), par)
+            sc.add_transition(Transition(par, 'JUNK', event='never'))
+            warm()
+            sc.remove_state('JUNK')
+            done.append(('junk', par))
+    # the detour must have led back to the described structure (what the edits do is C16's business, not ours)
+    for n, s_ in st.items():
+        o = sc.state_for(n)
+        if sc.parent_for(n) != s_['parent'] or sorted(sc.children_for(n)) != sorted(s_['children']) or \
+                getattr(o, 'initial', None) != s_['initial'] or getattr(o, 'memory', None) != s_['memory']:
+            return None
+    if sorted(sc.states) != sorted(st) or len(sc.transitions) != len(ch['transitions']):
+        return None
+    sc.validate()
+    return sc, tmap, done
